@@ -1,7 +1,7 @@
 (* C06 -- pinned statements only (generated once by tools/pin.py from `Check`, then fixed); proofs in RcCascadeP.v *)
 From Coq Require Import ZArith List Bool Lia Arith.
 Import ListNotations.
-Require Import Params StateW ModularW DisposeW StateP ModularP Rc RcChain RcCascadeP RcTreeP.
+Require Import Params StateW ModularW DisposeW StateP ModularP Rc RcSpec RcEpochP RcChain RcCascadeP RcTreeP RcChainAnyP.
 Local Open Scope Z_scope.
 
 Theorem C06_cascade_full :
@@ -206,3 +206,100 @@ Theorem C06_tree5_hyps :
 Proof. exact RcTreeP.tree5_hyps. Qed.
 Print Assumptions C06_tree5_hyps.
 
+(* ---- chains of ANY length (RcChainAnyP.v): a chain of n old nodes is reclaimed by exactly ceil(n / DEPTH_CAP) executions of
+   deferred functions (= grace periods that have to elapse one after the other): the length enters only through that
+   quotient.  The induction composes cascade_cap (DEPTH_CAP nodes per pass, the next node re-deferred with a stamp that is
+   old again one grace period later: C06_redeferred_stamp_old_next) and cascade_full; example: 1030 nodes, two passes. *)
+Theorem C06_chain_any_length :
+  forall (t : nat) (s : state) (x : thr) (K : list frame) (h : nat) (l : list nat) 
+         (p : pend) (rest : list pend) (oh : obj) (lk : link),
+       gett s t = Some x ->
+       frames x = FMay :: K ->
+       inclosure x = false ->
+       unpinned s ->
+       take_pending (pending s) KDestruct h = Some (p, rest) ->
+       (forall r : pend, In r rest -> pk r = KDestruct -> ~ In (po r) l) ->
+       let g := Z.max (G s) (pG p + EXPIRE_AFTER) in
+       let n := Z.of_nat (length (h :: l)) in
+       epoch_ok g ->
+       geto s h = Some oh ->
+       wordp (oword oh) ->
+       strong (oword oh) = 0 ->
+       weaked (oword oh) = false ->
+       old g (epoch (oword oh)) ->
+       links oh = [lk; null_link] ->
+       chn s g (Init.Nat.pred capn) lk l ->
+       NoDup (h :: l) ->
+       exists (sched : list (nat * list Z)) (s' : state),
+         mrun s sched = s' /\
+         only t sched /\
+         Z.of_nat (starts s sched) = (n - 1) / DEPTH_CAP + 1 /\
+         (forall o : nat, In o (h :: l) -> exists ob : obj, geto s' o = Some ob /\ gone ob) /\
+         pending s' = rest /\
+         G s' = g + EXPIRE_AFTER * ((n - 1) / DEPTH_CAP) /\
+         gett s' t = Some x /\
+         err s' = err s /\
+         cells s' = cells s /\
+         (forall o : nat, ~ In o (h :: l) -> geto s' o = geto s o) /\
+         (forall t' : nat, t' <> t -> gett s' t' = gett s t') /\ (EOK s -> EOK s').
+Proof. exact RcChainAnyP.chain_any_length. Qed.
+Print Assumptions C06_chain_any_length.
+
+Theorem C06_passes_ceil :
+  forall n : Z, 1 <= n -> (n - 1) / DEPTH_CAP + 1 = (n + DEPTH_CAP - 1) / DEPTH_CAP.
+Proof. exact RcChainAnyP.passes_ceil. Qed.
+Print Assumptions C06_passes_ceil.
+
+Theorem C06_passes_bounds :
+  forall n : Z, 1 <= n -> n / DEPTH_CAP <= (n - 1) / DEPTH_CAP + 1 <= n / DEPTH_CAP + 1.
+Proof. exact RcChainAnyP.passes_bounds. Qed.
+Print Assumptions C06_passes_bounds.
+
+Theorem C06_chain_any_length_hyps :
+  let s := ex_state in
+       let g := Z.max (G s) (pG (any_entry 100) + EXPIRE_AFTER) in
+       g = 100 /\
+       gett s 0 = Some any_thread /\
+       frames any_thread = [FMay] /\
+       inclosure any_thread = false /\
+       unpinned s /\
+       take_pending (pending s) KDestruct 1 = Some (any_entry 100, []) /\
+       epoch_ok g /\
+       geto s 1 = Some (any_head ex_n 95 94) /\
+       wordp (oword (any_head ex_n 95 94)) /\
+       strong (oword (any_head ex_n 95 94)) = 0 /\
+       weaked (oword (any_head ex_n 95 94)) = false /\
+       old g (epoch (oword (any_head ex_n 95 94))) /\
+       links (any_head ex_n 95 94) = [(2%nat, 15); null_link] /\
+       chn s g (Init.Nat.pred capn) (2%nat, 15) ex_tail /\
+       NoDup (1%nat :: ex_tail) /\ Z.of_nat (length (1%nat :: ex_tail)) = 1030.
+Proof. exact RcChainAnyP.ex_hyps. Qed.
+Print Assumptions C06_chain_any_length_hyps.
+
+Theorem C06_chain_1030_two_passes :
+  exists (sched : list (nat * list Z)) (s' : state),
+         mrun ex_state sched = s' /\
+         starts ex_state sched = 2%nat /\
+         (forall o : nat, In o (1%nat :: ex_tail) -> exists ob : obj, geto s' o = Some ob /\ gone ob) /\
+         pending s' = [] /\ G s' = 103 /\ err s' = 0.
+Proof. exact RcChainAnyP.ex_two_passes. Qed.
+Print Assumptions C06_chain_1030_two_passes.
+
+Theorem C06_chain_1030_executed :
+  let s' := mrun ex_state ex_sched in
+       starts ex_state ex_sched = 2%nat /\
+       count_dropped s' = 1030 /\
+       forallb (fun ob : obj => dropped ob && freed ob && destructed (oword ob)) (objs s') = true /\
+       pending s' = [] /\ err s' = 0 /\ G s' = 103 /\ option_map frames (gett s' 0) = Some [FMay].
+Proof. exact RcChainAnyP.ex_exec. Qed.
+Print Assumptions C06_chain_1030_executed.
+
+Theorem C06_redeferred_stamp_old_next :
+  forall g a1 a2 a3 : Z,
+       epoch_ok g ->
+       epoch_ok (g + EXPIRE_AFTER) ->
+       old g a1 ->
+       old g a2 ->
+       old g a3 -> old (g + EXPIRE_AFTER) a3 -> old (g + EXPIRE_AFTER) (child_stamp g a1 a2 a3 mod 16).
+Proof. exact RcChainAnyP.old_next. Qed.
+Print Assumptions C06_redeferred_stamp_old_next.
